@@ -670,93 +670,6 @@ def replay_hcco(payload):
     return dict(reproduced=bool(bad), observed=bad[:3])
 
 
-@unit('C12', 'meem', ['AEIC.emissions.ei.pmnvol:PMnvol_MEEM'], replay='contracts.C12:replay_meem', max_paths=20000, timeout_ms=30000)
-def meem(h):
-    """MEEM along a trajectory of any length: every returned index is defined (no division by zero, no root / power /
-    logarithm outside its domain), non-negative, and the mass and number indices are linear in the certification
-    indices they are interpolated from (measured nvPM matrices with their optional maximum values)."""
-    from pyvc.models import mathfn
-    I = h.I
-    h.trust('np.interp on the fixed thrust grids: piece-wise linear, exact at nodes, clamped outside; np.diff(a, prepend=a[0])[k] = a[k] - a[k-1] (0 for k = 0); '
-            'ndarray.max() is an upper bound attained by an element; pow(a, b) > 0 for a > 0')
-    TMV = I.lookup_fq('AEIC.performance.types:ThrustModeValues')
-
-    def tm(name, cond):
-        vals = [h.real(f'{name}_{i}') for i in range(4)]
-        for v in vals:
-            h.assume(cond(v))
-        return vals
-    use_sn = h.choice(2) == 1
-    sn = tm('SN', lambda v: v > 0)
-    mass = tm('nvPM_mass', lambda v: v > 0)
-    num = tm('nvPM_num', lambda v: v > 0)
-    h.ctx.assumed.append('positive certification data: smoke numbers, nvPM mass / number indices > 0; pressure ratio > 1; ambient T, P > 0; Mach >= 0; bypass ratio >= 0')
-    pr = h.real('pressure_ratio')
-    h.assume(pr > 1)
-    bpr = h.real('bypass_ratio')
-    h.assume(bpr >= 0)
-    et = ['TF', 'MTF'][h.choice(2)]
-    mk = h.choice(3)
-    mmax, mthr = [(-1, -1), (h.real('EImass_max'), rv('0.575')), (h.real('EImass_max'), rv('0.925'))][mk]
-    nk = h.choice(3) if not use_sn else 0
-    nmax, nthr = [(-1, -1), (h.real('EInum_max'), rv('0.575')), (h.real('EInum_max'), rv('0.925'))][nk]
-    if mk:
-        h.assume(mmax > 0)
-    if nk:
-        h.assume(nmax > 0)
-    n = h.int('n_points')
-    h.assume(n >= 1)
-    alt = SArr.symbolic(h.ctx, 'altitude', n)
-    T = SArr.symbolic(h.ctx, 'Tamb', n, where=lambda v: v > 0)
-    P = SArr.symbolic(h.ctx, 'Pamb', n, where=lambda v: v > 0)
-    M = SArr.symbolic(h.ctx, 'mach', n, where=lambda v: v >= 0)
-    amax = h.real('max_altitude')
-
-    def diff(I_, a, prepend=None, **kw):
-        if prepend is None:
-            raise Unsupported('np.diff without prepend')
-        g = a.snapshot()
-        return SArr(a.length, lambda k: z3.If(to_z3(k) == 0, to_real(g.at(0)) - to_real(prepend), to_real(g.at(k)) - to_real(g.at(to_z3(k) - 1))))
-    I.models['numpy.diff'] = diff
-    I.hooks['array_max'] = lambda a: amax if a is alt else None
-    orig_where = I.models['numpy.where']
-    I.models['numpy.where'] = lambda I_, c, *rest: orig_where(I_, c, *rest) if rest else ('indices-where', c)
-
-    def concat(I_, parts, **kw):
-        out = []
-        for p in parts:
-            out += list(I_.iterate(p))
-        return SArr.from_list(out)
-    I.models['numpy.concatenate'] = concat
-
-    def run(scale):
-        sc = lambda vs: [scale * v for v in vs]      # noqa
-        e = h.new('AEIC.performance.edb:EDBEntry', engine='E', uid='U', engine_type=et, BP_Ratio=bpr, rated_thrust=h.real('rated'),
-                  SN_matrix=I.call(TMV, list(sn), {}),
-                  nvPM_mass_matrix=I.call(TMV, [-1, -1, -1, -1] if use_sn else sc(mass), {}),
-                  nvPM_num_matrix=I.call(TMV, [-1, -1, -1, -1] if use_sn else sc(num), {}),
-                  PR=I.call(TMV, [pr, pr, pr, pr], {}), EImass_max=(scale * mmax if mk else -1), EImass_max_thrust=mthr,
-                  EInum_max=(scale * nmax if nk else -1), EInum_max_thrust=nthr, _partial=True)
-        return call(h, 'AEIC.emissions.ei.pmnvol:PMnvol_MEEM', e, alt, T, P, M)
-    try:
-        g1 = run(1)
-    except PyExc as e:
-        h.fail('every-operation-is-defined-on-valid-data', f'{e.inst!r} at {e.inst.where}')
-        return
-    k = generic_k(h, n)
-    gmd, em, en = (to_real(a.at(k)) for a in g1)
-    h.ensure('one-value-per-point', z3.And(*[to_z3(I.len_(a)) == n for a in g1]))
-    h.ensure('indices-non-negative', z3.And(gmd >= 0, em >= 0, en >= 0))
-    if not use_sn:
-        try:
-            g3 = run(3)
-        except PyExc as e:
-            h.fail('every-operation-is-defined-on-valid-data', f'{e.inst!r} at {e.inst.where}')
-            return
-        h.ensure('mass-and-number-indices-scale-linearly-with-the-certification-indices',
-                 z3.And(to_real(g3[1].at(k)) == 3 * em, to_real(g3[2].at(k)) == 3 * en, to_real(g3[0].at(k)) == gmd))
-
-
 def replay_meem(payload):
     r = native_sample(dict(seed=3, n=100))
     bad = [v for v in r.get('violations', []) if 'MEEM' in v['what']]
